@@ -138,6 +138,8 @@ def _literal_entries(fn, it: ast.expr):
         return None
     if isinstance(it, (ast.Tuple, ast.List)) and 0 < len(it.elts) <= 8 and not any(isinstance(e, ast.Starred) for e in it.elts):
         return list(it.elts)
+    if isinstance(it, ast.Dict) and all(k is not None for k in it.keys) and 0 < len(it.keys) <= 8:
+        return list(it.keys)  # iterating a mapping yields its keys
     return None
 
 
@@ -192,12 +194,69 @@ def unroll_table_comprehensions(fn) -> int:
 
         visit_DictComp = visit_ListComp = _one
 
+        def visit_Call(self, node):
+            # sum / any / all / max / min / tuple / list / sorted (<generator over a literal table>): consumed once, in order
+            nonlocal n
+            self.generic_visit(node)
+            if isinstance(node.func, ast.Name) and node.func.id in ("sum", "any", "all", "max", "min", "tuple", "list", "sorted") and len(node.args) == 1 and isinstance(node.args[0], ast.GeneratorExp):
+                ge = node.args[0]
+                if len(ge.generators) == 1 and not ge.generators[0].ifs and not ge.generators[0].is_async:
+                    entries = _literal_entries(fn, ge.generators[0].iter)
+                    if entries is not None:
+                        outs = []
+                        for e in entries:
+                            env: dict = {}
+                            if not _bind_pattern(ge.generators[0].target, e, env):
+                                return node
+                            outs.append(S(env).visit(clone(ge.elt)))
+                        node.args[0] = ast.copy_location(ast.Tuple(elts=outs, ctx=ast.Load()), ge)
+                        n += 1
+            return node
+
         def visit_FunctionDef(self, node):
             return node if node is not fn else self.generic_visit(node)
 
         visit_Lambda = lambda self, node: node  # noqa: E731
 
     U().visit(fn)
+
+    # x = {K: V for T in TABLE if C}   ->   x = {} ; if C1: x[K1] = V1 ; if C2: x[K2] = V2 ...
+    def stmts_pass(stmts):
+        nonlocal n
+        out = []
+        for st in stmts:
+            if not isinstance(st, (ast.FunctionDef, ast.AsyncFunctionDef, ast.ClassDef)):
+                for fld, lst in list(_blocks(st)):
+                    setattr(st, fld, stmts_pass(lst))
+                if isinstance(st, ast.Try):
+                    for h in st.handlers:
+                        h.body = stmts_pass(h.body)
+            val = getattr(st, "value", None)
+            tg = (st.targets if isinstance(st, ast.Assign) else [st.target]) if isinstance(st, (ast.Assign, ast.AnnAssign)) else []
+            if len(tg) == 1 and isinstance(tg[0], ast.Name) and isinstance(val, ast.DictComp) and len(val.generators) == 1 and val.generators[0].ifs and not val.generators[0].is_async:
+                g = val.generators[0]
+                entries = _literal_entries(fn, g.iter)
+                if entries is not None:
+                    new_stmts = []
+                    okb = True
+                    for e in entries:
+                        env: dict = {}
+                        if not _bind_pattern(g.target, e, env):
+                            okb = False
+                            break
+                        test = S(env).visit(clone(g.ifs[0])) if len(g.ifs) == 1 else ast.BoolOp(op=ast.And(), values=[S(env).visit(clone(t)) for t in g.ifs])
+                        store = ast.Assign(targets=[ast.Subscript(value=ast.Name(id=tg[0].id, ctx=ast.Load()), slice=S(env).visit(clone(val.key)), ctx=ast.Store())], value=S(env).visit(clone(val.value)))
+                        new_stmts.append(ast.copy_location(ast.If(test=test, body=[ast.copy_location(store, st)], orelse=[]), st))
+                    if okb:
+                        st.value = ast.copy_location(ast.Dict(keys=[], values=[]), val)
+                        out.append(st)
+                        out.extend(new_stmts)
+                        n += 1
+                        continue
+            out.append(st)
+        return out
+
+    fn.body = stmts_pass(fn.body)
     return n
 
 
